@@ -32,6 +32,10 @@
     F34               root_split_pinned_fails
     single-child      single_child_pinned_fails (pinned variant of the defect repaired by 5dad91e)
     tip-rooted inputs consensus_tip_root, consensus_tip_rooted_meets_oracle, tip_rooted_accepted (5a3a76a)
+    float64 product   fma_cut_exact, consensus_fma_cut, consensusCut_floorCut, float_product_pinned_fails
+    oracle clause     oracle_lengths_where_defined
+  `consensus_splits_partial` keeps its round-1 name: it is the complete one-step lemma `insertSplit_spec`
+  (not a partial result), superseded by `consensus_exact` / `consensus_meets_oracle`.
 
   Hypotheses are `Bool` predicates the driver evaluates and reports as tags:
   `domB` (hyp-dom), `lensOK` (hyp-lensok), `noRepeat` (hyp-norepeat, a consequence of
@@ -49,6 +53,8 @@ import Gotree.Lemmas.C09Singles
 import Gotree.Lemmas.C09SinglesLen
 import Gotree.Lemmas.C09Oracle
 import Gotree.Lemmas.C09Reroot
+import Gotree.Lemmas.C09Float
+import Gotree.Lemmas.C09Witness
 
 namespace Gotree.C09
 open Gotree
@@ -1039,7 +1045,76 @@ theorem tip_rooted_accepted :
      | _ => []) = [(["a"], 3), (["b"], 1), (["c"], 1), (["d"], 1), (["e"], 2)] := by decide +kernel
 
 
-/- `keysOK` (like `domB`, `lensOK`) is evaluated by the driver on every case (tag hyp-keys);
-   it goes through `List.mergeSort`, which the kernel does not unfold, so no `decide` witness here -/
+/-! ### the float64 product of the threshold (tree/algo.go:353) -/
+
+/-- The repaired cut `m := int(c*float64(n)); if FMA(c, n, -m) < 0 { m-- }` is the exact `⌊c·n⌋`
+    for every rounding of the product that is monotone and fixes the integers (float64
+    round-to-nearest below 2^53 is one). -/
+theorem fma_cut_exact (rnd : Rat → Rat) (hmono : ∀ a b : Rat, a ≤ b → rnd a ≤ rnd b)
+    (hint : ∀ k : Int, rnd (k : Rat) = (k : Rat)) (c : Rat) (n : Nat) (hc : 0 ≤ c) :
+    fmaCutG rnd c n = floorCut c n :=
+  fmaCutG_eq_floorCut rnd hmono hint c n hc
+
+/-- … hence `Consensus` with the repaired cut is the `consensus` of the theorems. -/
+theorem consensus_fma_cut (rnd : Rat → Rat) (hmono : ∀ a b : Rat, a ≤ b → rnd a ≤ rnd b)
+    (hint : ∀ k : Int, rnd (k : Rat) = (k : Rat)) (ord : List Entry → List Entry) (ts : List T) (c : Rat) :
+    consensusCut (fmaCutG rnd) ord ts c = consensus ord ts c := by
+  unfold consensusCut consensus consensusG
+  by_cases hr : (decide (c < 1/2) || decide (c > 1)) = true
+  · rw [if_pos hr, if_pos hr]
+  · rw [if_neg hr, if_neg hr]
+    have hc : 0 ≤ c := by
+      simp only [Bool.or_eq_true, decide_eq_true_eq, not_or, Rat.not_lt] at hr
+      grind
+    unfold consensusCoreCut consensusCore
+    simp only [fmaCutG_eq_floorCut rnd hmono hint c _ hc]
+    rfl
+
+/-- `consensusCut floorCut` (the driver's tie model is `consensusCut cutNow`) is `consensus`. -/
+theorem consensusCut_floorCut (ord : List Entry → List Entry) (ts : List T) (c : Rat) :
+    consensusCut floorCut ord ts c = consensus ord ts c := rfl
+
+/-- The defect: with the threshold `fl(2/3) = 6004799503160661/2^53 < 2/3` and three trees, the
+    float64 product rounds up to 2 (exact floor 1, repaired cut 1); the bipartition ab|cde, in two
+    of the three trees (frequency 2/3 > threshold), is not in the consensus computed with the
+    float64 cut, and is in the consensus with the exact cut. -/
+theorem float_product_pinned_fails :
+    floatCut exFloatC 3 = 2 ∧ floorCut exFloatC 3 = 1 ∧ fmaCut exFloatC 3 = 1 ∧ exFloatC < 2/3 ∧
+    outSplits (consensusFloat id exFloat exFloatC) = some [["d", "e"]] ∧
+    outSplits (consensus id exFloat exFloatC) = some [["a", "b"], ["d", "e"]] := by decide +kernel
+
+/-- The length clause the driver evaluates split by split (`lengthsOKWhereDefined`) follows from
+    the clause `consensus_meets_oracle` proves (`lengthsOK`). -/
+theorem oracle_lengths_where_defined (ts : List T) (r : T) (h : C09S.lengthsOK ts r = true) :
+    C09S.lengthsOKWhereDefined ts r = true := lengthsOK_whereDefined ts r h
+
+/-! ### the hypotheses of the round-2 theorems are satisfiable -/
+
+-- `consensus_meets_oracle` on `exColl` (three trees, rooted and unrooted, five taxa)
+example : domB exColl = true ∧ lensOK exColl = true := by decide +kernel
+example : C09S.keysOK exColl = true := keysOK_of_sidesN _ (by decide +kernel)
+-- `consensus_reroot_independent`: `exCollRe` = `exColl` re-rooted along the paths [0], [1], [1,0]
+example : F2 (fun t t' => t.tipNames.Nodup ∧ LensGood t.splits ∧ ∃ p, C05.reroot t p = .ok t') exColl exCollRe :=
+  exCollRe_hyp
+example : domB exCollRe = true ∧ lensOK exCollRe = true := by decide +kernel
+example : C09S.keysOK exCollRe = true := keysOK_of_sidesN _ (by decide +kernel)
+example : exCollRe.map (fun t => (t.kids.length, t.tipNames)) =
+    [(3, ["c", "d", "e", "a", "b"]), (3, ["b", "a", "c", "e", "d"]), (3, ["c", "b", "a", "d", "e"])] := by decide +kernel
+-- `consensus_presentation_meets_oracle`: the same pair of collections
+example : F2 SameU exColl exCollRe := by
+  have h := exCollRe_hyp
+  generalize exColl = a at h
+  generalize exCollRe = b at h
+  induction h with
+  | nil => exact F2.nil
+  | cons h _ ih =>
+    obtain ⟨hu, hg, p, hp⟩ := h
+    exact F2.cons (reroot_usplitsAll _ _ p hu hg hp) ih
+-- `consensus_tip_rooted_meets_oracle` on `exTipRoot` (two trees rooted at the tip `a`)
+example : (∀ t ∈ exTipRoot, t.tipNames.Nodup ∧ LensGood t.splits) := fun t ht =>
+  ⟨by revert t; decide +kernel, lensGood_of_lensOK exTipRoot (by decide +kernel) t ht⟩
+example : domB (exTipRoot.map rerootTip) = true ∧ lensOK (exTipRoot.map rerootTip) = true := by decide +kernel
+example : C09S.keysOK exTipRoot = true := keysOK_of_sidesN _ (by decide +kernel)
+example : C09S.keysOK (exTipRoot.map rerootTip) = true := keysOK_of_sidesN _ (by decide +kernel)
 
 end Gotree.C09
